@@ -284,7 +284,7 @@ func cmdCheck(args []string) int {
 		want = 2
 	}
 	ts := time.Now()
-	dischargeAll(all, prelude, workDir, *timeout, 5, want)
+	dischargeAll(all, prelude, workDir, *timeout, 8, want)
 	dischargeAll(covers, prelude, filepath.Join(workDir, "cover"), 2, 8, 1)
 	solveS := time.Since(ts).Seconds()
 
